@@ -97,6 +97,9 @@ func (w *World) verifyFunc(fi *FuncInfo, props []string) (res *FuncResult) {
 		if ra := c.rangeAssume(n, obj.Type()); ra != "" {
 			st.assume(ra)
 		}
+		if rf := c.refTypeFact(n, obj.Type()); rf != "" {
+			st.assume(rf)
+		}
 		switch types.Unalias(obj.Type()).Underlying().(type) {
 		case *types.Pointer, *types.Chan, *types.Map, *types.Signature:
 			st.assume(fmt.Sprintf("(<= %s %s)", n, st.alloc))
@@ -108,6 +111,12 @@ func (w *World) verifyFunc(fi *FuncInfo, props []string) (res *FuncResult) {
 		}
 		c.inputs = append(c.inputs, ModelVar{Name: obj.Name(), Term: n})
 		if c.boxedVars[obj] {
+			if s, named, isPtr := structOf(obj.Type()); s != nil && !isPtr && !opaqueNamed(named) {
+				r := st.allocRef()
+				fx.writeStructAt(st, r, obj.Type(), Val{T: n, S: srt, GT: obj.Type()})
+				st.vars[obj] = r
+				return
+			}
 			r := st.allocRef()
 			key := "P:" + typeKey(obj.Type())
 			hs := "(Array Int " + srt + ")"
@@ -184,6 +193,9 @@ func (w *World) verifyFunc(fi *FuncInfo, props []string) (res *FuncResult) {
 	vx.Vacuity = true
 	// locks taken by this activation are released on every exit
 	for _, mu := range c.locks {
+		if fi.Spec != nil && fi.Spec.Flags["lockeffect"] != "" {
+			break // the contract states the lock effect explicitly (ensures held(...) == ...)
+		}
 		phi := fmt.Sprintf("(= (select %s %s) (select %s %s))", exit.heap("LK", "(Array Int Int)"), mu, fx.entry.heap("LK", "(Array Int Int)"), mu)
 		c.oblige(exit, "lock-released", "exit("+lockName(mu)+")", phi, "lock state at exit equals lock state at entry", w.pos(fi.Body.Rbrace))
 	}
@@ -200,16 +212,57 @@ func (w *World) verifyFunc(fi *FuncInfo, props []string) (res *FuncResult) {
 			for _, k := range sortedKeys(c.heapSorts()) {
 				srt := c.heapSorts()[k]
 				he, hx := fx.entry.heap(k, srt), exit.heap(k, srt)
-				if he == hx || declared[k] == "any" {
+				if he == hx {
 					continue
 				}
-				if declared[k] == "fresh" || strings.HasPrefix(k, "P:") && fresherCells(k) {
+				// writes to objects allocated by this activation are invisible to the caller: every undeclared heap
+				// must be unchanged at each reference that existed at entry
+				_ = fresherCells
+				if objs := fi.Spec.ModObjs[k]; declared[k] == "any" && len(objs) > 0 {
+					// only the named objects may change
+					var ne []string
+					for _, on := range objs {
+						for _, in := range c.inputs {
+							if in.Name == on {
+								ne = append(ne, fmt.Sprintf("(not (= r!f %s))", in.Term))
+							}
+						}
+					}
+					phi := fmt.Sprintf("(forall ((r!f Int)) (=> (and (<= r!f %s) %s) (= (select %s r!f) (select %s r!f))))", fx.entry.alloc, strings.Join(append(ne, "true"), " "), hx, he)
+					c.oblige(exit, "frame", "only("+k+")", phi, "frame: "+k+" changes only at the objects named in the modifies clause", w.pos(fi.Body.Rbrace))
+					continue
+				}
+				if declared[k] == "any" {
+					continue
+				}
+				if strings.HasPrefix(k, "F:") || strings.HasPrefix(k, "E:") || strings.HasPrefix(k, "P:") || strings.HasPrefix(k, "M") || strings.HasPrefix(k, "G:") || k == "CC" || k == "CP" || declared[k] == "fresh" {
 					phi := fmt.Sprintf("(forall ((r!f Int)) (=> (<= r!f %s) (= (select %s r!f) (select %s r!f))))", fx.entry.alloc, hx, he)
-					c.oblige(exit, "frame", "fresh("+k+")", phi, "modifies fresh "+k+": unchanged at every reference that existed at entry", w.pos(fi.Body.Rbrace))
+					c.oblige(exit, "frame", "old("+k+")", phi, "frame: "+k+" is not in the modifies clause: unchanged at every reference that existed at entry", w.pos(fi.Body.Rbrace))
 					continue
 				}
 				c.oblige(exit, "frame", k, fmt.Sprintf("(= %s %s)", hx, he), "frame: "+k+" is not in the modifies clause and must be unchanged", w.pos(fi.Body.Rbrace))
 			}
+		}
+	}
+	if fi.Spec != nil && fi.Spec.Flags["emits"] == "opaque" {
+		phi := fmt.Sprintf("(forall ((k!p Int)) (=> (and (<= %s k!p) (< k!p %s)) (>= (ev_kind (select %s k!p)) %d)))", fx.entry.evlen, exit.evlen, exit.evlog, evKinds["Call"])
+		c.oblige(exit, "post", "emits.opaque", phi, "emits only opaque events (of unknown callbacks)", w.pos(fi.Body.Rbrace))
+	}
+	if fi.Spec != nil && (len(fi.Spec.EmitsC) > 0 || fi.Spec.Flags["emits"] == "none") {
+		// the function's events are exactly the declared list
+		n := len(fi.Spec.EmitsC)
+		c.oblige(exit, "post", "emits.count", fmt.Sprintf("(= %s (+ %s %d))", exit.evlen, fx.entry.evlen, n), fmt.Sprintf("emits exactly %d events", n), w.pos(fi.Body.Rbrace))
+		for k, ec := range fi.Spec.EmitsC {
+			env := fx.specEnv(exit, fx.entry, fi.Body.Lbrace)
+			env.bound = fx.resultBindings(exit, rc)
+			fx.bindParamsFromEntry(env, fi)
+			if fx.recv != nil {
+				if t, ok := fx.entry.vars[fx.recv]; ok {
+					env.bound["this"] = Val{T: t, S: c.sortOf(fx.recv.Type()), GT: fx.recv.Type()}
+				}
+			}
+			ev := fx.specEval(env, ec.Expr)
+			c.oblige(exit, "post", fmt.Sprintf("emits.%d", k+1), fmt.Sprintf("(= (select %s (+ %s %d)) %s)", exit.evlog, fx.entry.evlen, k, ev.T), "emits "+ec.Text, w.pos(fi.Body.Rbrace))
 		}
 	}
 	if fi.Spec != nil {
@@ -482,10 +535,57 @@ func (w *World) resolveModifies(sp *FuncSpec) error {
 		}
 		for _, k := range keys {
 			out = append(out, fresh+k)
+			if fresh != "" {
+				continue
+			}
+			if sp.ModObjs == nil {
+				sp.ModObjs = map[string][]string{}
+			}
+			if obj := w.modObjectOf(fi, m); obj != "" {
+				if cur, seen := sp.ModObjs[k]; !seen || len(cur) > 0 {
+					sp.ModObjs[k] = append(sp.ModObjs[k], obj)
+				}
+			} else {
+				sp.ModObjs[k] = []string{} // some entry names the whole heap
+			}
 		}
 	}
 	sp.Modifies = out
 	return nil
+}
+
+// modObjectOf: for an entry "x.f" where x is the receiver or a pointer parameter, the name x.
+func (w *World) modObjectOf(fi *FuncInfo, m string) string {
+	k := strings.LastIndex(m, ".")
+	if k < 0 || strings.ContainsAny(m, ":(") || fi == nil {
+		return ""
+	}
+	base := m[:k]
+	if strings.Contains(base, ".") {
+		return ""
+	}
+	var sig *types.Signature
+	if fi.Obj != nil {
+		sig = fi.Obj.Type().(*types.Signature)
+	} else if fi.Lit != nil {
+		sig, _ = fi.Pkg.TypesInfo.TypeOf(fi.Lit).(*types.Signature)
+	}
+	if sig == nil {
+		return ""
+	}
+	isPtr := func(t types.Type) bool {
+		_, ok := types.Unalias(t).Underlying().(*types.Pointer)
+		return ok
+	}
+	if r := sig.Recv(); r != nil && r.Name() == base && isPtr(r.Type()) {
+		return base
+	}
+	for i := 0; i < sig.Params().Len(); i++ {
+		if p := sig.Params().At(i); p.Name() == base && isPtr(p.Type()) {
+			return base
+		}
+	}
+	return ""
 }
 
 func (w *World) resolveModEntry(pkg *packages.Package, fi *FuncInfo, m string) ([]string, error) {
@@ -496,7 +596,21 @@ func (w *World) resolveModEntry(pkg *packages.Package, fi *FuncInfo, m string) (
 		if pkg == nil {
 			return nil, fmt.Errorf("no package to resolve %q", name)
 		}
-		tv, err := types.Eval(w.Fset, pkg.Types, token.NoPos, name)
+		if k := strings.LastIndex(name, "."); k > 0 && !strings.ContainsAny(name, "[]( ") {
+			q := strings.TrimPrefix(name[:k], "*")
+			for _, p := range w.allPackages() {
+				if p.Name() == q {
+					if tn, ok := p.Scope().Lookup(name[k+1:]).(*types.TypeName); ok {
+						return tn.Type(), nil
+					}
+				}
+			}
+		}
+		pos := token.NoPos
+		if fi != nil {
+			pos = fi.Body.Lbrace
+		}
+		tv, err := types.Eval(w.Fset, pkg.Types, pos, name)
 		if err != nil || !tv.IsType() {
 			return nil, fmt.Errorf("unknown type %q", name)
 		}
